@@ -38,3 +38,16 @@ package v2
 //@   invariant loop 2 [C17,C03]: fresh(relativeObjects) && (forall g api.GroupVersionKind :: has(relativeObjects, g) ==> relativeObjects[g] == nil || fresh(relativeObjects[g]))
 //@   ensures [C03] res != nil
 //@   ensures [C03] forall g api.GroupVersionKind :: has(m, g) ==> has(res, g) && res[g] != nil
+
+// Key discipline of the two child maps (ghost "units" on strings): a UniformObjectMap is keyed by the qualified name of the
+// object (namespace/name for namespaced objects: qualifiedName), a RelativeObjectMap by its name relative to the parent
+// (relativeName). The two coincide only for cluster-scoped children. A lookup must be given a key of the map's own kind.
+//@ func UniformObjectMap.qualifiedName(m, obj) (name)
+//@   requires obj != nil
+//@   safety C13,C03
+//@   tags ufb_uniformKey(name)
+
+//@ func UniformObjectMap.FindGroupKindName(m, gk, name) (obj)
+//@   pure
+//@   trusted read-only lookup over a map of maps; used as a mathematical function of its arguments
+//@   requires [C07,C03] ufb_uniformKey(name)
